@@ -621,6 +621,12 @@ class IH5Group(IH5InnerNode):
             if isinstance(prev_val, (IH5Group, IH5Dataset)):
                 raise ValueError("Path exists, in order to replace - delete first!")
 
+        # create the dataset (anonymously) first: if the value is rejected,
+        # nothing has been changed yet (no marker removed, no parent created)
+        dset = self._files[-1].create_dataset(
+            None, shape=shape, dtype=dtype, data=data, **kwargs
+        )
+
         if path in self._files[-1] and _node_is_del_mark(
             self._get_child_raw(path, self._last_idx)
         ):
@@ -632,9 +638,7 @@ class IH5Group(IH5InnerNode):
             assert path in self._files[-1]
             del self._files[-1][path]
 
-        self._files[-1].create_dataset(  # actually create it, finally
-            path, shape=shape, dtype=dtype, data=data, **kwargs
-        )
+        self._files[-1][path] = dset  # actually link it at its path, finally
         return IH5Dataset(self._record, path, self._last_idx)
 
     def require_group(self, name: str) -> IH5Group:
